@@ -29,6 +29,11 @@ user body), start(), stop(), ~AsyncLoop() and the constructor (see DESIGN.md sec
            nothing is stored), unless the wait has an exit that does not depend on a flag.  stop()'s wait on insideLoopBody is
            the handshake of R-C03-1 and is kept live by R-C03-2.
 
+  R-C03-6  shared words.  The flags may be std::atomic<bool> members or bits of one atomic integer member accessed through mask
+           helpers (the helpers are followed; `x.load() & MASK`, fetch_or(MASK), fetch_and(~MASK) are decoded into the same
+           load/store events on the canonical flags, so R-C03-1..5 are representation independent).  A word written by both
+           threads must be updated by fresh stores or atomic read-modify-writes; `w.store(w.load() | m)` is a lost-update race.
+
 Calls to functions defined in AsyncLoop.h itself (private/static helpers, AsyncLoopData members, closures that are invoked
 directly) are followed: the callee's CFG is explored from the state at the call site, so the event sequence, the lock state
 and constant boolean results are carried through (rkstatic.x_sync.Inliner); recursion makes the instance undecided.  A plain
@@ -69,7 +74,7 @@ MTX = (DATA, 'runningMutex')
 FLAGS = (ALIVE, RUN, INSIDE)
 SCHEDULE = 'rkcommon::tasking::schedule'
 
-R1, R2, R3, R4, R5 = 'R-C03-1', 'R-C03-2', 'R-C03-3', 'R-C03-4', 'R-C03-5'
+R1, R2, R3, R4, R5, R6 = 'R-C03-1', 'R-C03-2', 'R-C03-3', 'R-C03-4', 'R-C03-5', 'R-C03-6'
 CLOSURE = 'AsyncLoop::AsyncLoop/loop-closure'
 
 
@@ -145,13 +150,23 @@ class Env:
         # calls to functions defined in AsyncLoop.h itself (members, nested-struct members, static helpers, closures that
         # are invoked directly) are followed; everything else (the user body, std::, the tasking layer) is a plain call
         self.inl = Inliner(tu, lambda cf: tu.fn_file(cf) == FILE)
+        self.inl.expand = self.sy.expand
+        self.alias_pol = {}       # call expression -> False when it returns the *negation* of the value whose tokens it carries
         self.fids = set()         # declarations that denote the user functor (constructor parameter + helper parameters)
         self.enabling = set()     # (field, value) stores that can turn a wait predicate true
-        self.counts = {R1: 0, R2: 0, R3: 0, R4: 0, R5: 0}
+        self.counts = {R1: 0, R2: 0, R3: 0, R4: 0, R5: 0, R6: 0}
         self.launch_kinds = set()
 
     def count(self, rule, n=1):
         self.counts[rule] += n
+
+    def tok_truth(self, tid, truth):
+        return truth if self.alias_pol.get(tid, True) else (not truth)
+
+    def flag_test(self, e):
+        """(flag, polarity) if e tests exactly one protocol flag (atomic<bool> load, masked load of the packed word, or a
+        one-line helper around either)"""
+        return self.sy.flag_test(e, FLAGS) if e is not None else None
 
 
 # ======================================================================================================
@@ -167,10 +182,39 @@ def find_anchors(E):
     fields = {f['name']: f['ct'] for f in data[0].get('fields', [])}
     want = {ALIVE[1]: 'std::atomic<bool>', RUN[1]: 'std::atomic<bool>', INSIDE[1]: 'std::atomic<bool>',
             CV[1]: 'std::condition_variable', MTX[1]: 'std::mutex'}
+    E.indirect = {}       # condition variable / mutex held by reference or pointer instead of by value
+    E.packed = None       # member name of the atomic integer word when the flags are bits of it
+    flag_names = (ALIVE[1], RUN[1], INSIDE[1])
+    if not any(n_ in fields for n_ in flag_names):
+        # packed representation: the three flags are enumerators (bit masks) used with an atomic integer member
+        def norm(x):
+            return x.replace('_', '').lower()
+        words = [f for f in data[0].get('fields', []) if f['ct'].startswith('std::atomic<') and f['ct'] != 'std::atomic<bool>'
+                 and any(t in f['ct'] for t in ('int', 'long', 'short', 'char'))]
+        bits = {}
+        for rec_ in (data[0], loop[0]):
+            for x in tu.walk(tu.node(rec_['id'])) if tu.node(rec_['id']) is not None else ():
+                if x.get('kind') == 'EnumConstantDecl' and norm(x.get('name', '')) in [norm(n_) for n_ in flag_names]:
+                    lits = [y.get('value') for y in tu.walk(x) if y.get('kind') in ('ConstantExpr', 'IntegerLiteral') and y.get('value') is not None]
+                    vals = [y for y in tu.walk(x) if 'id' in y and tu.sd(y).get('cv') is not None]
+                    v = int(tu.sd(vals[0])['cv']) if vals else (int(lits[0]) if lits else None)
+                    role = [n_ for n_ in flag_names if norm(n_) == norm(x['name'])][0]
+                    if v is not None and v > 0 and v & (v - 1) == 0:
+                        bits[v] = (DATA, role)
+        if len(words) == 1 and len(bits) == 3 and len(set(bits.values())) == 3:
+            E.packed = words[0]['name']
+            E.sy.bitwords[(DATA, words[0]['name'])] = bits
+            for n_ in flag_names:
+                want.pop(n_)
     for name, ty in want.items():
-        if fields.get(name) != ty:
+        got = fields.get(name)
+        if name in (CV[1], MTX[1]) and got is not None and got != ty and got.rstrip(' &*').strip() == ty:
+            E.indirect[name] = got          # same role, reached through a reference / pointer member
+            continue
+        if got != ty:
             ctx.broken('C03: anchor member %s::%s of type %s not found (found %s)' % (DATA, name, ty, fields.get(name)))
             return False
+    E.data_fields = {f['name']: f for f in data[0].get('fields', [])}
     threads = [f for f in loop[0].get('fields', []) if f['ct'] == 'std::thread']
     states = [f for f in loop[0].get('fields', []) if f['ct'].startswith('std::shared_ptr<') and DATA in f['ct']]
     if len(threads) != 1 or len(states) != 1:
@@ -204,22 +248,43 @@ class C03Hooks(Hooks):
     """call hooks of the inlining exploration: bind helper parameters that receive the user functor; hand constant
     boolean return values of helpers to the rule (bind_ret); unfollowable call chains make the instance undecided"""
 
-    def __init__(self, E, found, rule, bind_ret=None):
-        self.E, self.found, self.rule, self.bind_ret = E, found, rule, bind_ret
+    def __init__(self, E, found, rule, bind_ret=None, toks_idx=None):
+        self.E, self.found, self.rule, self.bind_ret, self.toks_idx = E, found, rule, bind_ret, toks_idx
+
+    def memo_extra(self, n, cf, args):
+        return tuple(self.E.sy.int_value(a) for a in args)
 
     def pre_call(self, n, cf, args, st):
+        sy = self.E.sy
         for p, a in zip(cf.get('params', []), args):
-            if refs_decl(self.E.tu, self.E.sy.unwrap_move(a), self.E.fids):
+            if refs_decl(self.E.tu, sy.unwrap_move(a), self.E.fids):
                 self.E.fids.add(p['id'])
+            v = sy.int_value(a)              # mask constants handed to flag helpers (test / set / clear)
+            if v is not None:
+                sy.consts[p['id']] = v
+            else:
+                sy.consts.pop(p['id'], None)
         return [st]
 
     def post_call(self, n, cf, st, rv):
-        if self.bind_ret is not None and rv is not None:
-            return [self.bind_ret(st, n['id'], rv)]
+        if isinstance(rv, bool):
+            return [self.bind_ret(st, n['id'], rv)] if self.bind_ret is not None else [st]
+        if isinstance(rv, tuple) and rv[0] == 'alias' and self.toks_idx is not None:
+            # the helper returned (the negation of) a value that carries tokens: the call expression carries them too
+            _k, src, pol = rv
+            toks = st[self.toks_idx]
+            self.E.alias_pol[n['id']] = pol if self.E.alias_pol.get(src, True) else (not pol)
+            toks = addtoks(toks, n['id'], {(n['id'],) + t[1:] for t in toks if t[0] == src})
+            return [st[:self.toks_idx] + (toks,) + st[self.toks_idx + 1:]]
         return [st]
 
     def ret_value(self, e, st):
-        return self.E.sy.const_bool(e)
+        cb = self.E.sy.const_bool(e)
+        if cb is not None:
+            return cb
+        pol, atom = self.E.sy.cond_atom(e)
+        tid = atom_token(self.E.tu, atom)
+        return ('alias', tid, pol) if tid is not None else None
 
     def problem(self, msg, n):
         self.found.und(self.rule, msg, n)
@@ -299,6 +364,9 @@ def pred_tree(E, e):
     a = sy.atomic_op(e)
     if a is not None and a['op'] == 'load' and a['field'] in FLAGS:
         return ('ld', a['field'])
+    ft = E.flag_test(e)
+    if ft is not None:
+        return ('ld', ft[0]) if ft[1] else ('not', ('ld', ft[0]))
     return None
 
 
@@ -404,6 +472,11 @@ def bvals_kill(tu, n, bvals):
     return bvals
 
 
+def addtoks(toks, tid, new):
+    """(re-)executing the load at `tid` replaces whatever was known about its previous execution"""
+    return frozenset({t for t in toks if t[0] != tid} | set(new))
+
+
 def atom_token(tu, atom):
     if atom is None:
         return None
@@ -467,10 +540,12 @@ def check_loop_closure(E, f, lam, op):
             return [st]
         if kind == 'load':
             _k, fld, order, node = ev
+            new = set()
             if fld == RUN and pub:
-                toks = frozenset(set(toks) | {(node['id'], 1 if order == SEQ_CST else 2)})
+                new.add((node['id'], 1 if order == SEQ_CST else 2))
             if fld in (RUN, ALIVE) and LockState.holds(locks, MTX):
-                toks = frozenset(set(toks) | {(node['id'], 'o', fld)})
+                new.add((node['id'], 'o', fld))
+            toks = addtoks(toks, node['id'], new)
             return [(pub, chk, toks, locks, known, obs, bvals)]
         if kind == 'rmw':
             if ev[1] in FLAGS:
@@ -496,6 +571,7 @@ def check_loop_closure(E, f, lam, op):
     def refine(blk, si, st):
         atom, truth = sy.edge_truth(blk, si)
         tid = atom_token(tu, atom)
+        truth = E.tok_truth(tid, truth)
         if tid is None:
             return [st]
         pub, chk, toks, locks, known, obs, bvals = st
@@ -517,7 +593,7 @@ def check_loop_closure(E, f, lam, op):
         return st[:6] + (frozenset(set(st[6]) | {(call_id, rv)}),)
 
     res, _outs = E.inl.explore(op, [(0, 0, frozenset(), frozenset(), frozenset(), frozenset(), frozenset())], transfer, refine,
-                               C03Hooks(E, found, R1, bind_ret))
+                               C03Hooks(E, found, R1, bind_ret, toks_idx=2))
 
     # ---- R-C03-1, loop side
     inst = 'loop closure of %s %s [%s]' % (f['q'].replace('rkcommon::tasking::', ''), f['fty'], tu.config)
@@ -646,9 +722,11 @@ def check_stop(E):
             _k, fld, order, node = ev
             s = 1 if order == SEQ_CST else 2
             if fld == RUN:
-                toks = frozenset(set(toks) | {(node['id'], 'run', s)})
+                toks = addtoks(toks, node['id'], {(node['id'], 'run', s)})
             elif fld == INSIDE and cleared:
-                toks = frozenset(set(toks) | {(node['id'], 'inside', s)})
+                toks = addtoks(toks, node['id'], {(node['id'], 'inside', s)})
+            else:
+                toks = addtoks(toks, node['id'], ())
             return [(runv, cleared, q, toks)]
         if kind == 'rmw' and ev[1] in FLAGS:
             found.und(R1, 'read-modify-write %s on %s: not modelled' % (ev[2], ev[1][1]), ev[3])
@@ -664,6 +742,7 @@ def check_stop(E):
     def refine(blk, si, st):
         atom, truth = sy.edge_truth(blk, si)
         tid = atom_token(tu, atom)
+        truth = E.tok_truth(tid, truth)
         if tid is None:
             return [st]
         runv, cleared, q, toks = st
@@ -676,7 +755,7 @@ def check_stop(E):
                 q = 1 if t[2] == 1 else (q or 2)
         return [(runv, cleared, q, toks)]
 
-    res, outs = E.inl.explore(f, [(None, False, 0, frozenset())], transfer, refine, C03Hooks(E, found, R1))
+    res, outs = E.inl.explore(f, [(None, False, 0, frozenset())], transfer, refine, C03Hooks(E, found, R1, toks_idx=3))
     E.count(R1)
     for (st, _rv, via) in outs:
         runv, cleared, q, toks = st
@@ -744,6 +823,12 @@ def check_signals(E, f, label, fnkey):
             return [(locks, known, owe, nscope)]
         if kind == 'notify':
             if ev[1] == CV:
+                if getattr(E, 'cv_shared', False) is True and last(tu.sd(ev[2]).get('q')) == 'notify_one':
+                    found.viol(R3, fnkey, 'notify-one-on-shared-condvar', 'notify_one() on a condition variable that all AsyncLoop '
+                               'instances share (static storage): with several parked loops the single wake-up can go to another '
+                               'instance\'s thread, which re-checks its own predicate and sleeps again; this loop is not woken - '
+                               'start() is not seen within bounded time, the destructor hangs in join(). Use notify_all() or '
+                               'per-instance state', ev[2])
                 return [(locks, known, frozenset(), nscope or LockState.holds(locks, MTX))]
             return [st]
         return [st]
@@ -789,7 +874,9 @@ def check_start(E):
                 found.viol(R1, FN, 'writes-insideLoopBody', 'start() writes insideLoopBody, which belongs to the loop thread', node)
             return [st]
         if ev[0] == 'load' and ev[1] == RUN:
-            return [(runv, setf, frozenset(set(toks) | {(ev[3]['id'], 'run')}))]
+            return [(runv, setf, addtoks(toks, ev[3]['id'], {(ev[3]['id'], 'run')}))]
+        if ev[0] == 'load':
+            return [(runv, setf, addtoks(toks, ev[3]['id'], ()))]
         if ev[0] == 'call':
             cf = tu.callee_fn(ev[2])
             if cf is not None and cf.get('rec') == LOOP:
@@ -799,12 +886,13 @@ def check_start(E):
     def refine(blk, si, st):
         atom, truth = sy.edge_truth(blk, si)
         tid = atom_token(tu, atom)
+        truth = E.tok_truth(tid, truth)
         runv, setf, toks = st
         if tid is not None and any(t[0] == tid for t in toks):
             runv = truth
         return [(runv, setf, toks)]
 
-    res, outs = E.inl.explore(f, [(None, False, frozenset())], transfer, refine, C03Hooks(E, found, R3))
+    res, outs = E.inl.explore(f, [(None, False, frozenset())], transfer, refine, C03Hooks(E, found, R3, toks_idx=2))
     E.count(R3)
     for (st, _rv, via) in outs:
         runv, setf, toks = st
@@ -892,6 +980,7 @@ def check_dtor(E):
     def refine(blk, si, st):
         atom, truth = sy.edge_truth(blk, si)
         tid = atom_token(tu, atom)
+        truth = E.tok_truth(tid, truth)
         if tid is None:
             return [st]
         locks, known, cleared, owe, nscope, j, toks = st
@@ -899,7 +988,8 @@ def check_dtor(E):
             j = 'Y' if truth else 'N'
         return [(locks, known, cleared, owe, nscope, j, toks)]
 
-    res, outs = E.inl.explore(f, [(frozenset(), frozenset(), False, False, False, '?', frozenset())], transfer, refine, C03Hooks(E, found, R4))
+    res, outs = E.inl.explore(f, [(frozenset(), frozenset(), False, False, False, '?', frozenset())], transfer, refine,
+                               C03Hooks(E, found, R4, toks_idx=6))
     E.count(R4)
     for (st, _rv, via) in outs:
         if g.blocks[via].noret:
@@ -930,10 +1020,37 @@ def check_ctor(E, f, closures):
         lam = resolve_lambda(tu, sy, e)
         return lam is not None and lam['id'] in lam_ids
 
+    # the launch-method parameter: possible values along the path (universe = the enumerators of its type), so that the
+    # combinations of tests the constructor makes on it are followed exactly
+    mparam = f['params'][1]['id'] if len(f.get('params', [])) > 1 else None
+    universe = None
+    if mparam is not None:
+        ename = f['params'][1]['ct'].split('::')[-1]
+        lrec = [r for r in tu.records.values() if r.get('q') == LOOP]
+        for x in tu.walk(tu.node(lrec[0]['id'])) if lrec and tu.node(lrec[0]['id']) is not None else ():
+            if x.get('kind') == 'EnumDecl' and x.get('name') == ename:
+                vals, nxt = [], 0
+                for c in tu.kids(x):
+                    if c.get('kind') != 'EnumConstantDecl':
+                        continue
+                    lits = [y.get('value') for y in tu.walk(c) if y.get('kind') in ('IntegerLiteral', 'ConstantExpr') and y.get('value') is not None]
+                    v = int(lits[0]) if lits else nxt
+                    vals.append(v)
+                    nxt = v + 1
+                universe = frozenset(vals)
+
+    def const_int(e):
+        cv = tu.sd(tu.strip(e, casts=True)).get('cv') if e is not None else None
+        try:
+            return int(cv) if cv is not None else None
+        except ValueError:
+            return None
+
     def launch(st, kind):
         kinds.add(kind)
-        return ['twice' if st is not None else kind]
+        return [('twice' if st[0] is not None else kind,) + st[1:]]
 
+    # state: (launched, possible values of the launch-method parameter | None, truth of local bools already branched on)
     def transfer(blk, i, e, st):
         if i == 0:
             cur['at'] = (blk.id, st)
@@ -944,6 +1061,20 @@ def check_ctor(E, f, closures):
             return [st]
         k = n.get('kind')
         s = tu.sd(n)
+        if k == 'BinaryOperator' and n.get('opcode') == '=' and mparam is not None and sy.local_var(tu.kids(n)[0]) == mparam:
+            rhs = tu.strip(tu.kids(n)[1], casts=True)
+            vals = None
+            if const_int(rhs) is not None:
+                vals = frozenset({const_int(rhs)})
+            elif rhs is not None and rhs.get('kind') == 'ConditionalOperator':
+                arms = [const_int(x) for x in tu.kids(rhs)[1:3]]
+                if None not in arms:
+                    vals = frozenset(arms)
+            return [(st[0], vals if vals is not None else universe, st[2])]
+        if k in ('DeclStmt', 'BinaryOperator', 'CompoundAssignOperator', 'UnaryOperator'):
+            b2 = bvals_kill(tu, n, st[2])
+            if b2 != st[2]:
+                return [(st[0], st[1], b2)]
         if k == 'CallExpr' and s.get('q') == SCHEDULE:
             args = tu.kids(n)[1:]
             if args and is_loop(args[0]):
@@ -984,19 +1115,44 @@ def check_ctor(E, f, closures):
                 found.und(R4, 'call of the AsyncLoop member %s: helper calls are not modelled' % cf['q'], n)
         return [st]
 
-    res, outs = E.inl.explore(f, [None], transfer, None, C03Hooks(E, found, R4))
+    def refine(blk, si, st):
+        if blk.cond is None or len(blk.succ) != 2:
+            return [st]
+        pol, atom = sy.cond_atom(tu.node(blk.cond))
+        if atom is None:
+            return [st]
+        truth = pol if si == 0 else (not pol)
+        launched, mv, bv = st
+        if atom.get('kind') == 'BinaryOperator' and atom.get('opcode') in ('==', '!=') and mparam is not None and mv is not None:
+            a0, b0 = tu.kids(atom)
+            for x, y in ((a0, b0), (b0, a0)):
+                if sy.local_var(x) == mparam and const_int(y) is not None:
+                    eq = truth if atom['opcode'] == '==' else (not truth)
+                    mv2 = (mv & {const_int(y)}) if eq else (mv - {const_int(y)})
+                    return [(launched, mv2, bv)] if mv2 else []
+        var = sy.local_var(atom)
+        if var is not None and var != mparam:
+            seen = dict(bv).get(var)
+            if seen is not None and seen != truth:
+                return []
+            return [(launched, mv, frozenset(set(bv) | {(var, truth)}))]
+        return [st]
+
+    res, outs = E.inl.explore(f, [(None, universe, frozenset())], transfer, refine, C03Hooks(E, found, R4))
     E.count(R4)
     for (st, _rv, via) in outs:
         if g.blocks[via].noret:
             continue
         ents = [k for k in res.pred if k[0] == via]
         at = ents[0] if ents else None
-        if st is None:
+        if st[0] is None:
             found.viol(R4, FN, 'not-launched', 'a path through the constructor launches the loop closure neither on a thread nor as a '
                        'task', None, at)
-        elif st == 'twice':
-            found.viol(R4, FN, 'launched-twice', 'a path through the constructor launches the loop closure twice: two loop threads '
-                       'share one insideLoopBody flag', None, at)
+        elif st[0] == 'twice':
+            found.viol(R4, FN, 'launched-twice', 'a path through the constructor launches the loop closure twice (as a thread and as a '
+                       'task, or two of a kind): two runners execute the same loop over one AsyncLoopData - they share the single '
+                       'insideLoopBody flag that stop() waits on (one runner clears it while the other is inside the body) and one '
+                       'notify_one() wakes only one of them', None, at)
     E.launch_kinds |= kinds
     inst = '%s %s launch [%s]' % (f['q'].replace('rkcommon::tasking::', ''), f['fty'], tu.config)
     emit(ctx, tu, g, res, found, inst, (R4, R1), tu.fn_loc(f),
@@ -1086,6 +1242,10 @@ def check_loop_exit(E, f, lam, op):
                     continue
                 atom, truth = sy.edge_truth(b, si)
                 fl = flag_of(atom)
+                if fl is None and atom is not None:
+                    ft = E.flag_test(atom)
+                    if ft is not None:
+                        fl, truth = ft[0], (truth if ft[1] else (not truth))
                 if fl in fixed and truth != fixed[fl]:
                     continue
                 if len(b.succ) == 2 and None not in b.succ and b.cond and fl is None:
@@ -1145,6 +1305,18 @@ def initial_flag_value(E, name):
     """value of the boolean-literal default member initialiser of AsyncLoopData::<name>, else None"""
     tu = E.tu
     val = None
+    if E.packed is not None and (DATA, name) in E.sy.bitwords[(DATA, E.packed)].values():
+        fd = tu.node(E.data_fields[E.packed]['id'])
+        word = None
+        for x in tu.walk(fd) if fd is not None else ():
+            if 'id' in x and x.get('kind') != 'FieldDecl':
+                word = E.sy.int_value(x)
+                if word is not None:
+                    break
+        if word is None:
+            return None
+        bit = [b_ for b_, f_ in E.sy.bitwords[(DATA, E.packed)].items() if f_ == (DATA, name)][0]
+        return bool(word & bit)
     for c in tu.fns(q=DATA + '::AsyncLoopData', dep=False):
         g = tu.cfg(c)
         if g is None or c.get('ctor') != 'default':
@@ -1167,7 +1339,8 @@ def find_spins(E, f):
 
     def loaded_field(e):
         a = sy.atomic_op(tu.strip(e, casts=True)) if e is not None else None
-        if a is not None and a['op'] == 'load' and a['field'] is not None and a['field'][0] == DATA:
+        if a is not None and a['op'] == 'load' and a['field'] is not None and a['field'][0] == DATA and \
+                a['field'] not in sy.bitwords:
             return a['field']
         return None
 
@@ -1176,6 +1349,9 @@ def find_spins(E, f):
         fl = loaded_field(atom)
         if fl is not None:
             return fl, truth
+        ft = E.flag_test(atom) if atom is not None else None
+        if ft is not None:
+            return ft[0], (truth if ft[1] else (not truth))
         # a local that only ever holds loads of one flag (`bool inside = flag; while (inside) { ...; inside = flag.load(); }`)
         var = sy.local_var(atom) if atom is not None else None
         d = tu.node(var) if var is not None else None
@@ -1305,23 +1481,143 @@ def check_acks(E, closures):
                      {R5: 'every exit of the loop thread leaves the awaited flag set as awaited'})
 
 
+def static_rooted(E, e, depth=0):
+    """does the expression designate (a part of) an object with static storage duration?  True / False (per-instance: part of
+    *this, freshly allocated) / None (not known)"""
+    tu = E.tu
+    e = tu.strip(e, casts=True) if e is not None else None
+    if e is None or depth > 8:
+        return None
+    k = e.get('kind')
+    if k in ('InitListExpr', 'CXXDefaultInitExpr', 'ExprWithCleanups') and tu.kids(e):
+        return static_rooted(E, tu.kids(e)[0], depth + 1)
+    if k == 'MemberExpr':
+        if 'fi' not in tu.sd(e):
+            return None
+        return static_rooted(E, tu.kids(e)[0], depth + 1) if tu.kids(e) else False      # implicit this
+    if k == 'UnaryOperator' and e.get('opcode') in ('*', '&'):
+        return static_rooted(E, tu.kids(e)[0], depth + 1)
+    if k == 'CXXThisExpr' or k == 'CXXNewExpr':
+        return False
+    if k == 'DeclRefExpr':
+        rd = e.get('referencedDecl', {})
+        if rd.get('kind') != 'VarDecl':
+            return None
+        d = tu.node(rd.get('id'))
+        if d is None:
+            return None
+        if d.get('storageClass') == 'static':
+            return True
+        par = tu.par(d)
+        if par is not None and par.get('kind') in ('NamespaceDecl', 'TranslationUnitDecl'):
+            return True
+        if par is not None and par.get('kind') == 'CXXRecordDecl':
+            return True             # static data member
+        return None
+    if k in ('CallExpr', 'CXXMemberCallExpr', 'CXXOperatorCallExpr'):
+        cf = tu.callee_fn(e)
+        body = tu.body(cf) if cf is not None else None
+        if body is None:
+            return None
+        rets = [x for x in tu.walk(body) if x.get('kind') == 'ReturnStmt' and tu.kids(x)]
+        vals = {static_rooted(E, tu.kids(x)[0], depth + 1) for x in rets}
+        if vals == {True}:
+            return True
+        if vals == {False}:
+            return False
+        return None
+    return None
+
+
+def check_sync_ownership(E):
+    """R-C03-3: the condition variable a loop thread sleeps on belongs to its own instance - or, when it is shared between
+    instances (static storage), every notification is a notify_all (checked at the notifications)."""
+    ctx, tu = E.ctx, E.tu
+    E.count(R3)
+    inst = 'AsyncLoopData::%s ownership [%s]' % (CV[1], tu.config)
+    E.cv_shared = False
+    if CV[1] not in E.indirect:
+        ctx.ok(R3, inst, 'the condition variable is a by-value member of the per-instance state', FILE)
+        return
+    fd = tu.node(E.data_fields[CV[1]]['id'])
+    inits = [x for x in tu.kids(fd)] if fd is not None else []
+    v = static_rooted(E, inits[-1]) if inits else None
+    if v is None:
+        # initialised in a constructor's initialiser list?
+        for c in tu.fns(q=DATA + '::AsyncLoopData', dep=False):
+            g = tu.cfg(c)
+            for b, i, e in (g.elements() if g is not None else ()):
+                if e[0] == 'I' and e[3] == CV[1] and e[4]:
+                    v = static_rooted(E, tu.node(e[1]))
+    E.cv_shared = v
+    if v is True:
+        ctx.ok(R3, inst, 'the condition variable (%s) is shared by all instances: every notification has to be notify_all '
+               '(checked where the notifications are made)' % E.indirect[CV[1]], FILE, nontrivial=True)
+    elif v is False:
+        ctx.ok(R3, inst, 'the condition variable is reached through %s, bound to per-instance storage' % E.indirect[CV[1]], FILE)
+    else:
+        ctx.undecided(R3, inst, 'the condition variable is reached through a %s whose target is not recognised as per-instance or '
+                      'static storage' % E.indirect[CV[1]], FILE)
+
+
+def check_shared_words(E, closures):
+    """R-C03-6: a shared atomic word that more than one thread writes is only updated by stores of fresh values or by atomic
+    read-modify-writes; a store of a value computed from an earlier load of the same word (load-modify-store) overwrites
+    what the other thread wrote in between.  Words = every atomic member of AsyncLoopData (a std::atomic<bool> flag, or the
+    integer word holding the flags as bits)."""
+    ctx, tu, sy = E.ctx, E.tu, E.sy
+    E.count(R6)
+    loop_fns, ctl_fns = {}, {}
+    for f, cl in closures:
+        for lam, op in cl:
+            for x in E.inl.reachable_fns(op):
+                loop_fns[x['id']] = x
+    for top in (E.start, E.stop, E.dtor):
+        for x in E.inl.reachable_fns(top):
+            ctl_fns[x['id']] = x
+    writers = {}        # word -> {'loop': bool, 'ctl': bool}
+    lms = []            # (word, function, node)
+    for side, fns in (('loop', loop_fns), ('ctl', ctl_fns)):
+        for fn in fns.values():
+            for _b, _i, n in tu.cfg(fn).stmts():
+                a = sy.atomic_op(n)
+                if a is None or a['field'] is None or a['field'][0] != DATA or a['op'] not in ('store', 'rmw'):
+                    continue
+                word = a['field']
+                writers.setdefault(word, set()).add(side)
+                if a['op'] == 'store':
+                    _s, _obj, args = tu.call_parts(n)
+                    val = args[0] if args else None
+                    if val is not None and any(sy.atomic_op(x) is not None and sy.atomic_op(x)['op'] == 'load' and
+                                               sy.atomic_op(x)['field'] == word for x in tu.walk(val) if 'id' in x):
+                        lms.append((word, fn, n))
+    bad = False
+    for word, fn, n in lms:
+        if writers.get(word) != {'loop', 'ctl'}:
+            continue
+        bad = True
+        fname = fn['q'].replace('rkcommon::tasking::AsyncLoop::', '')
+        ctx.violation(R6, '%s in %s [%s]' % (word[1], fname, tu.config),
+                      'the word `%s` is written both by the loop thread and by the controlling thread, and here it is updated by a '
+                      'load followed by a separate store of a value computed from it (load-modify-store, not fetch_or / fetch_and / '
+                      'exchange / compare_exchange): a write of the other thread that falls between the load and the store is '
+                      'overwritten with its stale value - e.g. stop() clears the running flag, the loop thread stores the word it '
+                      'loaded before (running still set) and the body keeps running after stop() returned' % word[1],
+                      tu.loc(n), key='%s|%s|%s|load-modify-store-%s' % (R6, FILE, fname, word[1]),
+                      path=['%s: %s' % (tu.loc(n), tu.show(n))])
+    if not bad:
+        shared = sorted(w[1] for w, sides in writers.items() if sides == {'loop', 'ctl'})
+        ctx.ok(R6, 'atomic words of AsyncLoopData [%s]' % tu.config,
+               'words written by both threads: %s; none is updated by a load-modify-store (%d written word(s) scanned)'
+               % (shared or 'none', len(writers)), FILE)
+
+
 def check_initial(E):
     """R-C03-3: threadShouldBeAlive starts true (otherwise the loop thread exits at once and start() never resumes anything)"""
     ctx, tu, sy = E.ctx, E.tu, E.sy
     E.count(R3)
     inst = 'AsyncLoopData::threadShouldBeAlive initial value [%s]' % tu.config
-    val = None
-    for c in tu.fns(q=DATA + '::AsyncLoopData', dep=False):
-        g = tu.cfg(c)
-        if g is None or c.get('ctor') != 'default':
-            continue
-        for b, i, e in g.elements():
-            if e[0] == 'I' and e[3] == ALIVE[1]:
-                fd = tu.node(e[2])
-                lits = [x for x in tu.walk(fd)] if fd is not None else []
-                lits = [x for x in lits if x.get('kind') == 'CXXBoolLiteralExpr']
-                if len(lits) == 1:
-                    val = bool(lits[0].get('value'))
+    val = initial_flag_value(E, ALIVE[1])
     if val is None:
         ctx.undecided(R3, inst, 'initial value of threadShouldBeAlive not found as a boolean literal initialiser', FILE)
     elif val:
@@ -1362,6 +1658,7 @@ def check_tu(ctx, tu):
                           '(nested closure or helper): not modelled', tu.fn_loc(f))
             continue
         per_ctor.append((f, cl))
+    check_sync_ownership(E)
     # 1. loop closures first: they define the predicate-enabling stores
     for f, cl in per_ctor:
         for lam, op in cl:
@@ -1384,6 +1681,7 @@ def check_tu(ctx, tu):
         for lam, op in cl:
             check_loop_exit(E, f, lam, op)
     check_acks(E, per_ctor)
+    check_shared_words(E, per_ctor)
     if per_ctor and E.launch_kinds != {'thread', 'task'}:
         ctx.broken('R-C03-4: expected both launch methods (std::thread member and tasking::schedule) in the constructor, found %s'
                    % sorted(E.launch_kinds))
@@ -1401,6 +1699,8 @@ def run(ctx):
                      'constructor launches the closure once and never detaches; the closure owns its state (no this, no references)')
     ctx.describe(R5, 'acknowledgement flags: every flag value the destructor busy-waits for is stored by the loop thread on each of '
                      'its exit paths (or the wait has another way out); stop()\'s wait on insideLoopBody is covered by R-C03-2')
+    ctx.describe(R6, 'an atomic word of the shared state that both the loop thread and the controlling thread write is updated only '
+                     'by stores of fresh values or atomic read-modify-writes, never by a load followed by a store of a derived value')
     ctx.assume('start(), stop() and the destructor are called from one controlling thread at a time (the class documents no '
                'concurrent control)')
     ctx.assume('every AsyncLoopData member access inside AsyncLoop and its closures designates the one shared state object created '
@@ -1411,7 +1711,7 @@ def run(ctx):
         jobs += [dict(unit='drivers/c03_asyncloop.cpp', config=c) for c in ('INTERNAL', 'OMP', 'DEBUG')]
         jobs += [dict(unit='drivers/c03_asyncloop.cpp', config='TBB', std='gnu++17')]
     tus = ctx.front.parse_many(jobs)
-    totals = {R1: 0, R2: 0, R3: 0, R4: 0, R5: 0}
+    totals = {R1: 0, R2: 0, R3: 0, R4: 0, R5: 0, R6: 0}
     for tu in tus:
         E = check_tu(ctx, tu)
         if E is not None:
@@ -1420,10 +1720,11 @@ def run(ctx):
     k = len(tus)
     ctx.floor(R1, totals[R1], 3 * k, 'per configuration: 2 loop-closure instantiations + stop() (+ 2 constructors: no body call)')
     ctx.floor(R2, totals[R2], 2 * k, 'per configuration: one wait site in each of the 2 loop-closure instantiations')
-    ctx.floor(R3, totals[R3], 8 * k, 'per configuration: 2 wait sites x (lock, predicate) + enabling stores in start() and the '
-                                     'destructor + start() sets the flag + initial value of threadShouldBeAlive')
+    ctx.floor(R3, totals[R3], 9 * k, 'per configuration: 2 wait sites x (lock, predicate) + enabling stores in start() and the '
+                                     'destructor + start() sets the flag + initial value of threadShouldBeAlive + ownership of the condition variable')
     ctx.floor(R4, totals[R4], 7 * k, 'per configuration: destructor + 2 x (constructor launch, closure capture list, closure '
                                      'termination)')
     ctx.floor(R5, totals[R5], k, 'per configuration: the busy-wait of stop() on insideLoopBody (found through its helpers)')
+    ctx.floor(R6, totals[R6], k, 'per configuration: the scan of the atomic members of AsyncLoopData')
     from rkstatic import selftest
     selftest.run(ctx)
